@@ -116,20 +116,23 @@ def replay(mods, scn, cse=None):
             if not (abs(sc - e) <= 1e-9 * max(1.0, abs(e))):
                 bad("score", expected=e, observed=sc)
         # (5) by hand on the exported filter, in the plan's order
-        ekf = adapter.export_python()
-        state, cov = ekf.State(), ekf.Covariance()
-        for i, st in enumerate(rows):
-            ctl = ekf.Control(**{c: fl(q) for c, q in named(st["u"]).items()})
-            state, cov = ekf.process_model(0.1, state, cov, ctl)
-            for j, key in enumerate(st["keyorder"]):
-                rd = ekf.make_reading(key, **{r: fl(q) for r, q in st["z"][key].items()})
-                state, cov = ekf.sensor_model(state, cov, sensor_key=key, sensor_reading=rd)
-                y = ekf.innovations[key]
-                S = ekf.sensor_prediction_uncertainty[key]
-                hand = float((y.T @ np.linalg.inv(S) @ y).item())
-                n += 1
-                if not (abs(hand - T1[i, j]) <= 1e-12 * max(1.0, abs(hand))):
-                    bad("by-hand", row=i, key=key, expected=hand, observed=float(T1[i, j]))
+        def by_hand(ekf, T, label):
+            nn = 0
+            state, cov = ekf.State(), ekf.Covariance()
+            for i, st in enumerate(rows):
+                ctl = ekf.Control(**{c: fl(q) for c, q in named(st["u"]).items()})
+                state, cov = ekf.process_model(0.1, state, cov, ctl)
+                for j, key in enumerate(st["keyorder"]):
+                    rd = ekf.make_reading(key, **{r: fl(q) for r, q in st["z"][key].items()})
+                    state, cov = ekf.sensor_model(state, cov, sensor_key=key, sensor_reading=rd)
+                    y = ekf.innovations[key]
+                    S = ekf.sensor_prediction_uncertainty[key]
+                    hand = float((y.T @ np.linalg.inv(S) @ y).item())
+                    nn += 1
+                    if not (abs(hand - T[i, j]) <= 1e-12 * max(1.0, abs(hand))):
+                        bad(label, row=i, key=key, expected=hand, observed=float(T[i, j]))
+            return nn
+        n += by_hand(adapter.export_python(), T1, "by-hand")
         # (6) parameters unchanged; (7) repeatable
         after = adapter.get_params()
         for k in params_before:
@@ -141,6 +144,12 @@ def replay(mods, scn, cse=None):
         T2 = np.array(adapter.transform(X), dtype=float)
         if not np.array_equal(T1, T2):
             bad("not-repeatable", expected=T1.tolist(), observed=T2.tolist())
+        # (8) history: a configuration field changed between two transforms must take effect -- the second transform is again
+        #     the NIS of the (newly) exported filter run by hand (no stale compiled filter)
+        for other in ([None, 0.75] if d.gate() is not None else [0.5, 3.0]):
+            adapter.set_params(innovation_filtering=other)
+            T3 = np.array(adapter.transform(X), dtype=float)
+            n += by_hand(adapter.export_python(), T3, "by-hand-after-set_params(innovation_filtering=%s)" % other)
     except Exception as e:
         bad("exception", observed=repr(e)[:400], tb=traceback.format_exc()[-1500:])
     return {"mismatches": mism, "values": n}
